@@ -209,7 +209,7 @@ func C09(e *Env) {
 	})
 	// random trees with random op sequences
 	r := e.Rng(9)
-	nSeq := e.Pick(1000, 20000)
+	nSeq := e.Pick(1000, 100000)
 	type rt struct {
 		name string
 		ps3  bool
@@ -281,10 +281,8 @@ func C09(e *Env) {
 		res := RunLockstep(addr, w, reqs, e.Watchdog, 0, false)
 		run.Eval(len(reqs))
 		run.Count("network_requests", int64(len(reqs)))
-		if res.Fail != nil && !res.Fail.Inconclusive {
-			run.Violate("net-"+res.Fail.Rule, res.Fail.Feature, fmt.Sprintf("[sizes %v ps3=%v via network] %s", t.Sizes, t.PS3, res.Fail.Detail), map[string]any{"tree": t, "failed_request": reqAt(reqs, res.FailAt), "transcript": tailStr(res.Log, 8)})
-		} else if res.Fail != nil {
-			run.Inconclusive(res.Fail.Error())
+		if res.Fail != nil {
+			judgeModelFail(e, res.Fail, reqs, res.FailAt, "net-", res.Fail.Feature, fmt.Sprintf("[sizes %v ps3=%v via network] %s", t.Sizes, t.PS3, res.Fail.Detail), map[string]any{"tree": t, "failed_request": reqAt(reqs, res.FailAt), "transcript": tailStr(res.Log, 8)})
 		}
 	})
 	CrashCheck(e, p, "c09 worker", nil)
